@@ -28,7 +28,7 @@ RULE = (
     "kick and no post_send; failing kick => SendTaskError and no post_send; otherwise exactly one message whose decoded "
     "task name, args, kwargs and typed labels equal the schedule's plus its schedule_id - nothing more, also when an earlier schedule of the same task with other labels went through the same scheduler instance. (2) 'label_source': a "
     "RuleBasedStateMachine over the real LabelScheduleSource: 1-3 tasks on the source's own broker or shared "
-    "(foreign-broker) tasks, each with 0-5 schedule entries of kind cron / time / both / neither / with extra keys, "
+    "(foreign-broker) tasks - a shared task may carry the NAME of an own task, which keeps priority -, each with 0-5 schedule entries of kind cron / time / both / neither / with extra keys, "
     "duplicates and equal times; rules list and fire (= real scheduler.on_ready on any schedule of ANY earlier listing, "
     "so stale and repeated firings occur) in any order. Model: one list per task. Invariant at every listing (a listing is a step of the history, none is made behind its back) and at the end: the "
     "multiset (task, cron, time, args, kwargs) of get_schedules() equals the model's cron/time entries of own-broker "
@@ -208,7 +208,9 @@ def entry_strategy() -> Any:
 
 
 def setup_strategy() -> Any:
-    task = st.fixed_dictionaries({"where": st.sampled_from(["own", "own", "own", "shared"]), "entries": st.lists(entry_strategy(), max_size=5)})
+    # clash: a shared (foreign-broker) task registered under the NAME of an own task - the own broker's task keeps priority
+    task = st.fixed_dictionaries({"where": st.sampled_from(["own", "own", "own", "shared"]), "entries": st.lists(entry_strategy(), max_size=5),
+                                  "clash": st.sampled_from([False, True])})
     return st.lists(task, min_size=1, max_size=3)
 
 
@@ -228,6 +230,8 @@ class LabelSim:
         self.listings: List[List[Any]] = []
         self.fired = 0
         self.shared_time_or_task = False
+        self.names: Dict[str, str] = {}
+        self.name_clash = False
 
     def close(self) -> None:
         self.loop.close()
@@ -249,8 +253,13 @@ class LabelSim:
         self.ops.append(op)
         o = op["op"]
         if o == "setup":
+            first_own = next((f"task{ti}" for ti, t in enumerate(op["tasks"]) if t["where"] == "own"), None)
             for ti, t in enumerate(op["tasks"]):
-                name = f"task{ti}"
+                name = key_ = f"task{ti}"
+                if t["where"] == "shared" and t.get("clash") and first_own:
+                    name = first_own
+                    self.name_clash = True
+                self.names[key_] = name
                 raw = [self.raw_entry(e) for e in t["entries"]]
 
                 def f(*a: Any, **k: Any) -> None:
@@ -260,9 +269,9 @@ class LabelSim:
                 f.__name__ = name
                 br = self.broker if t["where"] == "own" else self.shared
                 self.tasks.append(br.register_task(f, task_name=name, schedule=raw))
-                self.raw[name] = raw
+                self.raw[key_] = raw
                 if t["where"] == "own":
-                    self.model[name] = [dict(r) for r in raw]
+                    self.model[key_] = [dict(r) for r in raw]
             for name, lst in self.model.items():
                 times = [r["time"] for r in lst if "time" in r]
                 if len(times) != len(set(times)) or len(lst) >= 2:
@@ -294,7 +303,7 @@ class LabelSim:
                 after = list(self.tasks[i].labels.get("schedule", []))
                 b4 = before[n]
                 time_only = s.cron is None and s.time is not None
-                expect_removal = time_only and n == s.task_name and n in self.model and any(r.get("time") == s.time for r in b4)
+                expect_removal = time_only and self.names[n] == s.task_name and n in self.model and any(r.get("time") == s.time for r in b4)
                 if not expect_removal:
                     if len(after) != len(b4) or any(x is not y for x, y in zip(after, b4)):
                         out.add("C16.d", f"firing {s.task_name} (cron={s.cron}, time={s.time}) changed the entries of {n}: {len(b4)} -> {len(after)}")
@@ -320,7 +329,7 @@ class LabelSim:
     def compare_listing(self, got: List[Any], out: Outcome) -> None:
         def key(task: str, r: Dict[str, Any]) -> Any:
             return (task, r.get("cron"), r.get("time").isoformat() if r.get("time") else None, repr(r.get("args", [])), repr(r.get("kwargs", {})))
-        want = sorted((key(n, r) for n, lst in self.model.items() for r in lst if "cron" in r or "time" in r), key=repr)
+        want = sorted((key(self.names[n], r) for n, lst in self.model.items() for r in lst if "cron" in r or "time" in r), key=repr)
         have = sorted(((s.task_name, s.cron, s.time.isoformat() if s.time else None, repr(s.args), repr(s.kwargs)) for s in got), key=repr)
         if want != have:
             out.add("C16.c", f"get_schedules() lists {have}, declared cron/time entries of own-broker tasks are {want}")
@@ -346,7 +355,7 @@ def run_label_history(case: Dict[str, Any]) -> Outcome:
 def finish(sim: LabelSim, out: Outcome) -> None:
     out.nontrivial = bool(sim.shared_time_or_task and sim.fired)
     out.classes = [c for c, f in (("fired", sim.fired), ("shared_time_or_task", sim.shared_time_or_task),
-                                  ("shared_broker_task", any(t.broker is sim.shared for t in sim.tasks)),
+                                  ("shared_broker_task", any(t.broker is sim.shared for t in sim.tasks)), ("shared_task_with_own_name", sim.name_clash),
                                   ("stale_fire", sim.fired >= 2 and len(sim.listings) >= 1)) if f]
     out.trace = {"ops": len(sim.ops), "fired": sim.fired, "listings": len(sim.listings)}
 
